@@ -95,6 +95,7 @@ func main() {
 		panicOK  = flag.Bool("panicok", false, "uncaught panics are not violations")
 		revMap   = flag.Bool("revmap", false, "iterate maps in reverse insertion order")
 		mapRot   = flag.Bool("maprotate", false, "fork over the starting point of every map iteration")
+		maxViol  = flag.Int("maxviol", 40, "stop exploring after this many violating paths outside the known findings (0 = never)")
 		nomerge  = flag.Bool("nomerge", false, "disable function-level merging")
 		nodom    = flag.Bool("nodomains", false, "disable unary domain reasoning (every branch goes to the solver)")
 		slog     = flag.String("solverlog", "", "solver log prefix")
@@ -121,7 +122,7 @@ func main() {
 		return
 	}
 	t0 := time.Now()
-	conf := Config{Unwind: *unwind, MaxSteps: *maxSteps, MaxDepth: 400, MaxPaths: *maxPaths, MaxAlloc: 1 << 22,
+	conf := Config{Unwind: *unwind, MaxSteps: *maxSteps, MaxDepth: 400, MaxPaths: *maxPaths, MaxViolPaths: *maxViol, MaxAlloc: 1 << 22,
 		MaxIteTable: 4096, MaxConcretize: 300, Workers: *workers, SolverKind: *solver, TimeoutMs: *timeout,
 		Trace: *trace, Verbose: *verbose, MapOrderReversed: *revMap, MapRotate: *mapRot, NoMerge: *nomerge, Bounds: map[string]int{},
 		KnownOpen: map[string]bool{}, PanicOK: *panicOK, SolverLog: *slog, NoDomains: *nodom}
@@ -394,6 +395,9 @@ func main() {
 	}
 	if timedOut {
 		o.Problems = append(o.Problems, fmt.Sprintf("walltime: exploration stopped after %ds with %d paths done", *wallMax, eng.stats.Paths))
+	}
+	if eng.stats.PathsByStatus["violcap"] > 0 {
+		o.Problems = append(o.Problems, fmt.Sprintf("violcap: exploration stopped after %d violating paths (%d paths done)", *maxViol, eng.stats.Paths))
 	}
 	if eng.stats.PathsByStatus["pathcap"] > 0 {
 		o.Problems = append(o.Problems, fmt.Sprintf("pathcap: exploration stopped at %d paths", eng.stats.Paths))
